@@ -530,3 +530,99 @@ func Verif_C20_E4_MemWriteBatch() {
 	}
 	vsym.Reach("end")
 }
+
+// E5: range iterators of the in-memory engine's default (radix) backend, executed from source down to
+// go-immutable-radix, on key populations with shared prefixes and keys that are prefixes of each other.
+func c20PrefixKeys() (keys [][]byte, hasPrefixPair bool) {
+	a, b, c := vsym.U8("ka"), vsym.U8("kb"), vsym.U8("kc")
+	switch vsym.Choose("population", 6) {
+	case 0:
+		return [][]byte{{a}}, false
+	case 1:
+		vsym.Assume(a < c)
+		return [][]byte{{a}, {c}}, false
+	case 2:
+		return [][]byte{{a}, {a, b}}, true // a key and an extension of it (b may be 0x00)
+	case 3:
+		vsym.Assume(a < c)
+		return [][]byte{{a}, {a, b}, {c}}, true
+	case 4:
+		vsym.Assume(b < c)
+		return [][]byte{{a, b}, {a, c}}, false // shared prefix only
+	default:
+		vsym.Assume(b < c)
+		return [][]byte{{a}, {a, b}, {a, c}}, true
+	}
+}
+
+func Verif_C20_E5_MemRadixIterator() {
+	useMemType = memTypeRadix
+	keys, prefixPair := c20PrefixKeys()
+	_ = prefixPair
+	var o IteratorOpts
+	if vsym.Thorough() {
+		o.Min = c20Bound("min")
+		o.Max = c20Bound("max")
+	} else {
+		// quick: the bound on the side the scan starts from is nil / 1 / 2 symbolic bytes, the other one nil or 1 byte
+		o.Reverse = vsym.Choose("reverse", 2) == 1
+		near, far := c20Bound("near"), []byte(nil)
+		if vsym.Choose("far.kind", 2) == 1 {
+			far = vsym.Bytes("far", 1)
+		}
+		if o.Reverse {
+			o.Min, o.Max = far, near
+		} else {
+			o.Min, o.Max = near, far
+		}
+	}
+	o.Type = []uint8{common.RangeClose, common.RangeLOpen, common.RangeROpen, common.RangeOpen}[vsym.Choose("rangetype", 4)]
+	if vsym.Thorough() {
+		o.Reverse = vsym.Choose("reverse", 2) == 1
+	}
+	// offset/count arithmetic of the wrapper is the subject of E1/E2 (symbolic there); here: none / skip one / take one
+	if vsym.Thorough() {
+		o.Offset = vsym.Choose("offset", 3)
+		o.Count = vsym.Choose("count", 4) - 1
+	} else {
+		o.Offset = vsym.Choose("offset", 2)
+		o.Count = []int{-1, 1}[vsym.Choose("count", 2)]
+	}
+	if o.Max != nil {
+		o.Max = append(make([]byte, 0, len(o.Max)+1), o.Max...)
+	}
+	want := c20Reference(keys, o)
+	var me *memEng
+	if vsym.Symbolic() {
+		me = &memEng{cfg: &RockEngConfig{}, engOpened: 1}
+		r, err := NewRadix()
+		vsym.Assert(err == nil, "radix")
+		me.radixMemI = r
+	} else {
+		dir, err := ioutil.TempDir("", "verif-c20m-")
+		if err != nil {
+			panic(err)
+		}
+		defer os.RemoveAll(dir)
+		cfg := NewRockConfig()
+		cfg.DataDir = dir
+		me, err = NewMemEng(cfg)
+		if err != nil {
+			panic(err)
+		}
+		if err := me.OpenEng(); err != nil {
+			panic(err)
+		}
+		defer me.CloseAll()
+	}
+	wb := me.NewWriteBatch()
+	for _, k := range keys {
+		wb.Put(k, []byte("v"))
+	}
+	vsym.Assert(me.Write(wb) == nil, "write")
+	it, err := NewDBRangeLimitIteratorWithOpts(me, o)
+	vsym.Assert(err == nil, "iterator creation succeeds")
+	defer it.Close() // before the deferred CloseAll, also when an assertion fails natively
+	c20Compare(it, want, "mem radix")
+	vsym.Reach("end")
+}
